@@ -28,8 +28,9 @@ type c09Elt[T any] interface {
 
 func c09ToDec(cs []c09ref.Case) []verifmc.DecCase {
 	out := make([]verifmc.DecCase, len(cs))
+	bases := c09ref.Bases(cs)
 	for i, c := range cs {
-		out[i] = verifmc.DecCase{Name: c.Name, Class: c.Class, Data: c.Data}
+		out[i] = verifmc.DecCase{Name: c.Name, Class: c.Class, Data: c.Data, Base: bases[i]}
 	}
 	return out
 }
@@ -61,32 +62,37 @@ func c09BLSGroup[T any, PT c09Elt[T]](r *verifmc.Run, name string, c *wcurve.Cur
 			}
 			r.Eval(1)
 		}
+		observe := func(P PT, in []byte) verifmc.DecResult {
+			keep := c09ref.Clone(in)
+			if err := P.SetBytes(in); err != nil {
+				return verifmc.DecResult{}
+			}
+			res := verifmc.DecResult{Accepted: true, Point: P.Bytes()}
+			// "the same format" is the one the flag bits of the input declare
+			if in[0]&0x80 != 0 {
+				res.Reenc = P.BytesCompressed()
+			} else {
+				res.Reenc = P.Bytes()
+			}
+			if !isOn(P) {
+				res.Note = "accepted-value-fails-IsOnG"
+			}
+			if string(keep) != string(in) {
+				res.Note = "input-modified"
+			}
+			return res
+		}
 		n := r.CheckDecoder(verifmc.DecSpec{
 			Entry:      entry,
 			Cases:      c09ToDec(cases),
 			RefAll:     r.Thorough(),
 			AcceptOnly: func(in []byte) bool { return PT(new(T)).SetBytes(in) == nil },
-			Lib: func(in []byte) verifmc.DecResult {
-				keep := c09ref.Clone(in)
+			Seq: func(first, second []byte) verifmc.DecResult {
 				P := PT(new(T))
-				if err := P.SetBytes(in); err != nil {
-					return verifmc.DecResult{}
-				}
-				res := verifmc.DecResult{Accepted: true, Point: P.Bytes()}
-				// "the same format" is the one the flag bits of the input declare
-				if in[0]&0x80 != 0 {
-					res.Reenc = P.BytesCompressed()
-				} else {
-					res.Reenc = P.Bytes()
-				}
-				if !isOn(P) {
-					res.Note = "accepted-value-fails-IsOnG"
-				}
-				if string(keep) != string(in) {
-					res.Note = "input-modified"
-				}
-				return res
+				verifmc.Try(func() { _ = P.SetBytes(first) })
+				return observe(P, second)
 			},
+			Lib: func(in []byte) verifmc.DecResult { return observe(PT(new(T)), in) },
 			Ref: func(in []byte) verifmc.DecOracle {
 				v := c09ref.BLSVerdict(c, in)
 				return verifmc.DecOracle{Member: v.Member, Reason: v.Reason, Point: v.Point}
@@ -102,7 +108,7 @@ func TestVerifC09_bls_g1(t *testing.T) {
 	r.Rule("every input string of the alphabet (valid [a]G for a in {0,1,2,3,r-1,(r+1)/2,5 SHAKE values} from the reference and from the library; " +
 		"all single-bit flips of 4 (quick) / 11 (thorough) of them; coordinates p+j and 2^bits-1-j, j<8; aliases x+p, y+p of valid points; " +
 		"all 8 flag combinations x 5 payloads; 15 on-curve points outside the r-torsion; off-curve and wrong-curve points) x {compressed, uncompressed}; " +
-		"distinct = distinct (entry point, input bytes)")
+		"every case also decoded with SetBytes into a value that already holds the nearest valid point, and before it; distinct = distinct (entry point, input bytes)")
 	c09BLSGroup[bls.G1](r, "G1", wcurve.BLS12381G1(), bls.G1Generator, func(P *bls.G1) bool { return P.IsOnG1() })
 	r.RequireCounter("in:nonsubgroup", 20)
 	r.RequireCounter("in:alias", 6)
@@ -110,6 +116,7 @@ func TestVerifC09_bls_g1(t *testing.T) {
 	r.RequireCounter("in:flip", 4600)
 	r.RequireCounter("in:valid-lib", 22)
 	r.RequireCounter("accepted", 44)
+	r.RequireCounter("reused_receiver_cases", 4000)
 }
 
 func TestVerifC09_bls_g2(t *testing.T) {
@@ -124,4 +131,5 @@ func TestVerifC09_bls_g2(t *testing.T) {
 	r.RequireCounter("in:flip", 9200)
 	r.RequireCounter("in:valid-lib", 22)
 	r.RequireCounter("accepted", 44)
+	r.RequireCounter("reused_receiver_cases", 4000)
 }
